@@ -658,4 +658,86 @@ example :
     let w : Wave := ⟨1000, 10, [0, 0, 1, 2, 1, 2, 1, 2, 0, 0, 0, 1, 2]⟩
     w.pixelSize = some 2 ∧ (rowsOf 2 w.usedTs).flatten ≠ [] ∧ (∀ t ∈ w.allTs, t ≤ I64MAX) := by decide
 
+/-! ## The `δ` the code adds to the last sample: `int(1e9 / infowave.sample_rate)`
+
+`deltaTs` is the code's expression evaluated in an exact model of IEEE-754 binary64 division
+(`rnDiv`: exponent from the bit lengths, round-half-even of the scaled quotient), tied to the code by op
+`c03.delta` on every run (and cross-checked against the hardware `Float`). -/
+
+/-- **The code establishes the hypothesis `1 ≤ δ ≤ dt` of the range theorems**: for every sample period
+    from 1 ns to 10¹⁵ ns (the property asks for 0.1 s = 10⁸ ns) the float round trip
+    `int(1e9 / (1e9 / dt))` yields `dt` or `dt − 1`, and never `0`.  Proof: each of the two rounded
+    divisions has relative error at most 2⁻⁵³ (`rnDiv_err`), so the result lies strictly between `dt − 1`
+    and `dt + 1` as long as `2·dt + 2 < 2⁵³`; `dt = 1` is exact. -/
+theorem deltaTs_bounds (dt : Int) (h1 : 1 ≤ dt) (h2 : dt ≤ 1000000000000000) :
+    1 ≤ deltaTs dt ∧ deltaTs dt ≤ dt ∧ dt - 1 ≤ deltaTs dt := by
+  unfold deltaTs
+  have hn := deltaSoft_near dt.toNat (by omega) (by omega)
+  simp only [Int.ofNat_eq_natCast]
+  by_cases h : dt.toNat = 1
+  · rw [h, deltaSoft_one]; omega
+  · omega
+
+example : (1 : Int) ≤ 55 ∧ (55 : Int) ≤ 1000000000000000 := by decide
+
+/-- TEST (kernel evaluation of samples, not a ∀-statement): the periods the tie singles out — 55, 57
+    and 110 ns lose one nanosecond in the round trip, the Bluelake periods 12800 ns and 62.5 ms and the
+    0.1 s of the property do not. -/
+theorem deltaTs_values :
+    deltaTs 1 = 1 ∧ deltaTs 55 = 54 ∧ deltaTs 57 = 56 ∧ deltaTs 110 = 109 ∧ deltaTs 12800 = 12800 ∧
+      deltaTs 62500000 = 62500000 ∧ deltaTs 100000000 = 100000000 := by
+  decide +kernel
+
+/-- **Line ranges with the `δ` of the code** (no hypothesis on `δ` left): `line_range_exact` and
+    `line_ranges_ordered` for `δ = int(1e9 / sample_rate)`, every sample period up to 10¹⁵ ns. -/
+theorem line_range_exact_code (w : Wave) (hdt : 0 < w.dt) (hmax : w.dt ≤ 1000000000000000)
+    (hs : 0 ≤ w.start) (k : Nat) (hk : w.pixelSize = some k) (P : Nat) (hP : 0 < P)
+    (rs : List (Int × Int)) (hrs : w.lineRangesExcl P (deltaTs w.dt) = some rs) :
+    rs.length = numBlocks (w.usedTs.length / k) P ∧
+    (∀ (l : Nat) (hl : l < rs.length),
+      w.usedTs.filter (fun t => decide (rs[l].1 ≤ t) && decide (t < rs[l].2))
+        = blockSamples w.usedTs k P l) ∧
+    (∀ (l : Nat) (hl : l < rs.length),
+      rs[l].1 < rs[l].2 ∧ ∀ (hl' : l + 1 < rs.length), rs[l].2 ≤ rs[l + 1].1) := by
+  have hd := deltaTs_bounds w.dt (by omega) hmax
+  have hex := line_range_exact w hdt hs k hk P hP _ hd.1 hd.2.1 rs hrs
+  exact ⟨hex.1, hex.2, fun l hl => line_ranges_ordered w hdt hs k hk P hP _ hd.1 hd.2.1 rs hrs l hl⟩
+
+/-- **Frame ranges with the `δ` of the code.** -/
+theorem frame_range_exact_code (w : Wave) (hdt : 0 < w.dt) (hmax : w.dt ≤ 1000000000000000)
+    (hs : 0 ≤ w.start) (k : Nat) (hk : w.pixelSize = some k) (P L : Nat) (hP : 0 < P) (hL : 0 < L)
+    (rs : List (Int × Int)) (hrs : w.frameRanges P L false (deltaTs w.dt) = some (some rs)) :
+    rs.length = numBlocks (w.usedTs.length / k) (L * P) ∧
+    (∀ (f : Nat) (hf : f < rs.length),
+      w.usedTs.filter (fun t => decide (rs[f].1 ≤ t) && decide (t < rs[f].2))
+        = blockSamples w.usedTs k (L * P) f) ∧
+    (∀ (f : Nat) (hf : f < rs.length),
+      rs[f].1 < rs[f].2 ∧ ∀ (hf' : f + 1 < rs.length), rs[f].2 ≤ rs[f + 1].1) :=
+  have hd := deltaTs_bounds w.dt (by omega) hmax
+  frame_range_exact w hdt hs k hk P L hP hL _ hd.1 hd.2.1 rs hrs
+
+/-- **Summing the photon stream over the line ranges the code reports gives the image's column totals**
+    (`sum_over_ranges_eq_image` with the `δ` of the code). -/
+theorem sum_over_ranges_eq_image_code (w : Wave) (data : List Int) (hlen : data.length = w.iw.length)
+    (hdt : 0 < w.dt) (hmax : w.dt ≤ 1000000000000000) (hs : 0 ≤ w.start) (k m r : Nat)
+    (hreg : w.Regular k m r) (P : Nat) (hP : 0 < P)
+    (hcont : ∀ l, l < numBlocks m P → ∀ t ∈ w.allTs,
+      w.usedTs.getD (l * P * k) 0 ≤ t →
+      t ≤ w.usedTs.getD (min ((l + 1) * P) m * k - 1) 0 → t ∈ w.usedTs)
+    (rs : List (Int × Int)) (hrs : w.lineRangesExcl P (deltaTs w.dt) = some rs) :
+    sumOver ⟨w.start, w.dt, data⟩ rs = lineTotals P (pixelSums w.iw data 0) :=
+  have hd := deltaTs_bounds w.dt (by omega) hmax
+  sum_over_ranges_eq_image w data hlen hdt hs k m r hreg P hP _ hd.1 hd.2.1 hcont rs hrs
+
+/-- Non-vacuity with a period that loses a nanosecond: `dt = 55`, `δ = 54`. -/
+example :
+    let w : Wave := ⟨1000, 55, [0, 0, 1, 2, 1, 2, 0, 1, 2, 1, 2, 0, 1, 2, 1]⟩
+    w.Regular 2 5 1 ∧ deltaTs w.dt = 54 ∧
+    w.lineRangesExcl 2 (deltaTs w.dt) = some [(1110, 1329), (1385, 1604), (1660, 1769)] := by
+  refine ⟨⟨by decide, by decide, by decide, by decide⟩, by decide +kernel, ?_⟩
+  have : deltaTs (⟨1000, 55, [0, 0, 1, 2, 1, 2, 0, 1, 2, 1, 2, 0, 1, 2, 1]⟩ : Wave).dt = 54 := by
+    decide +kernel
+  simp only [this]
+  decide
+
 end Verif.C03
